@@ -626,10 +626,7 @@ def pade(ctx, a, L, M):
         raise ValueError("L+M+1 Coefficients should be provided")
 
     if M == 0:
-        if L == 0:
-            return [ctx.one], [ctx.one]
-        else:
-            return a[:L+1], [ctx.one]
+        return a[:L+1], [ctx.one]
 
     # Solve first
     # a[L]*q[1] + ... + a[L-M+1]*q[M] = -a[L+1]
